@@ -1276,3 +1276,77 @@ def ident_fast_only(init_tree, win_tree):
                     and isinstance(first.body[0], ast.Raise) and first.body[0].exc is None:
                 reraise = True
     return front and reraise
+
+
+# ------------------------------------------------------------------ seeded round 5 (C20-8): what the decorator's probe can reach
+
+PROBE_SELF_OK = {"pid", "_name", "_ppid"}
+
+
+def probe_stale_sources(tree):
+    """Everything the `except` handlers of the module's error-translating decorators (every module-level function whose
+    name starts with `wrap_exceptions`) can reach — transitively, through module-level functions and methods of any class
+    of the module, by plain name or attribute name (so `Process._get_x.__wrapped__(self)` reaches `_get_x`) — that can
+    hold the answer of an EARLIER native call: functions decorated with `memoize_when_activated` / `memoize`
+    (reported by name) and attributes of `self` other than pid / _name / _ppid that are not methods (reported as
+    `self.<attr>`). Empty = the probe that decides ZombieProcess vs NoSuchProcess asks the OS afresh."""
+    mfuncs, methods, memo = {}, {}, set()
+
+    def note(node, table):
+        table.setdefault(node.name, []).append(node)
+        for d in node.decorator_list:
+            dn = d.func if isinstance(d, ast.Call) else d
+            nm = dn.id if isinstance(dn, ast.Name) else dn.attr if isinstance(dn, ast.Attribute) else ""
+            if nm.startswith("memoize"):
+                memo.add(node.name)
+
+    for node in tree.body:
+        if isinstance(node, ast.FunctionDef):
+            note(node, mfuncs)
+        elif isinstance(node, ast.ClassDef):
+            for sub in node.body:
+                if isinstance(sub, ast.FunctionDef):
+                    note(sub, methods)
+    roots = [n for n in tree.body if isinstance(n, ast.FunctionDef) and n.name.startswith("wrap_exceptions")]
+    if not roots:
+        raise NotRecognised("no wrap_exceptions* decorator in the module")
+    seen, stale, todo = set(), set(), []
+
+    def scan(nodes, local):
+        for top in nodes:
+            for n in ast.walk(top):
+                key = None
+                if isinstance(n, ast.Name) and isinstance(n.ctx, ast.Load) and n.id in mfuncs and n.id not in local:
+                    key = ("f", n.id)
+                elif isinstance(n, ast.Attribute):
+                    if n.attr in methods:
+                        key = ("m", n.attr)
+                    elif isinstance(n.value, ast.Name) and n.value.id == "self" and isinstance(n.ctx, ast.Load) \
+                            and n.attr not in PROBE_SELF_OK:
+                        stale.add("self." + n.attr)
+                if key is not None and key not in seen:
+                    seen.add(key)
+                    todo.append(key)
+
+    def locals_of(fn):
+        out = {a.arg for a in fn.args.args + fn.args.kwonlyargs}
+        for n in ast.walk(fn):
+            if isinstance(n, ast.Name) and isinstance(n.ctx, ast.Store):
+                out.add(n.id)
+        return out
+
+    for r in roots:
+        seen.add(("f", r.name))
+        loc = locals_of(r)
+        for n in ast.walk(r):
+            if isinstance(n, ast.ExceptHandler):
+                scan(n.body, loc)
+    while todo:
+        kind, nm = todo.pop()
+        if nm in memo:
+            # what it hands back may be the answer of an earlier call; its body is not what the probe runs then
+            stale.add(nm)
+            continue
+        for fn in (mfuncs if kind == "f" else methods)[nm]:
+            scan(fn.body, locals_of(fn))
+    return sorted(stale)
